@@ -800,7 +800,7 @@ def bounds_job(ck, derive, body, loaded):
             ck.engine("bounds %s: %s, but the natively emitted impl bounds exactly %s (%s)" % (derive, why, sorted(native_bounded), req))
             continue
         ck.report("bounds:%s:%s" % (derive, re.sub(r"[^a-z ]", "", why)[:40].strip()), why, {"property": "C19", "crate": "hmacro", "request": req, "used_by_parsed_fields": sorted(used),
-                                                                                                  "natively_bounded": sorted(native_bounded), "observed": header[-300:]})
+                                                                                                  "natively_bounded": sorted(native_bounded), "impl_header": header[-300:], "observed": nat})
 
 
 TOPS = ["Slice", "Array", "Ptr", "Reference", "Paren", "Group", "Tuple", "BareFn", "Path", "TraitObject", "ImplTrait"]
